@@ -201,7 +201,10 @@ def c01(ix: Index) -> None:
         return
     entered = collections.Counter((r['ev'], r['bus'], r['h']) for r in ix.inv.values())
     fin = ix.final['events']
+    stopped = _stopped_buses(ix)
     for (ev, bus) in ix.accepted:
+        if bus in stopped:
+            continue  # a stopped bus abandons its backlog by design
         for hi in ix.handlers_for(ev, bus):
             n = entered.get((ev, bus, hi), 0)
             ix.C['c01_deliveries'] += 1
@@ -216,6 +219,8 @@ def c01(ix: Index) -> None:
             ix.v('C01', 'ran-for-unaccepted', None, ev=ev, bus=bus, h=hi)
     # event_results has exactly one entry per expected (bus, handler)
     for ev, f in fin.items():
+        if any(e == ev and bus in stopped for (e, bus) in ix.accepted):
+            continue
         want = collections.Counter(f'B{bus}.h{hi}' for (e, bus) in ix.accepted if e == ev for hi in ix.handlers_for(ev, bus))
         got = collections.Counter(x['hid'] for x in f['results'] if '.h' in x['hid'])
         if want != got:
@@ -327,6 +332,8 @@ def c03(ix: Index) -> None:
             st = _actor_fate(ix, a['by'])
             if st == 'cancelled':
                 continue
+            if _stopped_buses(ix):
+                continue  # stop() abandons a bus's backlog by design: whoever awaits one of those events waits forever
             if ix.sane or ix.meta.get('hang') in ('deadlock',):
                 tree = {a['ev']} | ix.desc(a['ev'])
                 mech = _hang_mech(ix, tree)
@@ -352,8 +359,8 @@ def c03(ix: Index) -> None:
 
 def _actor_fate(ix: Index, by: str) -> str:
     for r in reversed(ix.R):
-        if r['k'] == 'a_end' and r['by'] == by and r['exc'] == 'cancel':
-            return 'cancelled'
+        if r['k'] == 'a_end' and r['by'] == by and r['exc'] == 'cancel' and r['seq'] < ix.quiet_seq:
+            return 'cancelled'  # cancelled by another actor during the scenario (tear-down cancellation does not count)
     return 'blocked'
 
 
@@ -400,7 +407,7 @@ def c04(ix: Index) -> None:
                 x = ix.exit.get(by)
                 if x is not None and x['out'] == 'cancel':
                     continue
-            if ix.sane:
+            if ix.sane and not _stopped_buses(ix):
                 ix.v('C04', 'await-never-returns', 'F14' if isinstance(by, str) else _hang_mech(ix, {a['ev']} | ix.desc(a['ev'])), ev=a['ev'], by=by)
             continue
         if e['exc'] is not None:
@@ -498,7 +505,7 @@ def c07(ix: Index) -> None:
     cnt = collections.Counter(r['ev'] for r in ix.R if r['k'] == 'disp_call')
     redisp = {ev for ev, n in cnt.items() if n > 1}
     fin = ix.final['events']
-    dup_edges = len({(a, d, str(p)) for a, d, p in sc.get('fwd', [])}) != len(sc.get('fwd', []))
+    dup_pairs = {pair for pair, n in collections.Counter((a, d) for a, d, _p in sc.get('fwd', [])).items() if n > 1}
     for ev, t in ix.evtype.items():
         firsts = [(r['seq'], b, r['by']) for (e, b), r in ix.accepted.items() if e == ev]
         if not firsts:
@@ -526,7 +533,7 @@ def c07(ix: Index) -> None:
                 mech = None
                 # F17: two forward registrations src->b both selected inside one process_event of src
                 fw = [r for r in ix.enq_ok if r['ev'] == ev and r['bus'] == b and r['by'] == 'F']
-                if len(fw) >= 2 and dup_edges:
+                if len(fw) >= 2 and any(d == b for (_a, d) in dup_pairs):
                     mech = 'F17'
                 ix.v('C07', 'processed-count', mech, ev=ev, bus=b, n=n)
         path = fin.get(ev, {}).get('path')
